@@ -38,7 +38,7 @@ func (o Op) Label() string {
 		}
 		return fmt.Sprintf("pub(%s,%s)", o.Topic, strings.Join(parts, "+"))
 	case "pull":
-		return fmt.Sprintf("pull(%s,%d)", o.Sub, o.Max)
+		return fmt.Sprintf("pull%s(%s,%d)", o.Tgt, o.Sub, o.Max)
 	case "ack", "nack", "acknack":
 		return fmt.Sprintf("%s(%s,%s)", o.K, o.Sub, o.Sel)
 	case "updateSub", "modifyPush":
